@@ -29,16 +29,24 @@ ScenKey ==
          THEN <<"call", out.sel, out.pargs, out.ckw, out.status, out.missing,
                 { <<cfg[i].scope, cfg[i].param>> : i \in 1..Len(cfg) }, CurScope>>
          ELSE <<"none">>
+    [] ScenKind = "refcall" ->
+         IF out.op = "Call" /\ \E i \in 1..Len(cfg) :
+                                  /\ cfg[i].sel = out.sel /\ IsPrefix(cfg[i].scope, CurScope)
+                                  /\ \E v \in Flatten(cfg[i].val) : Tag(v) = "ref"
+         THEN <<"refcall", out.sel, Len(out.pargs), { e[1] : e \in out.ckw }, out.status,
+                { <<cfg[i].scope, cfg[i].sel, cfg[i].param, cfg[i].val>> : i \in 1..Len(cfg) }, CurScope>>
+         ELSE <<"none">>
     [] ScenKind = "bind" ->
          IF out.op = "Bind" THEN <<"bind", out.api, out.sel, out.param, out.status, out.why, Len(cfg)>>
          ELSE <<"none">>
     [] OTHER -> <<"none">>
 
 MaxFiles == IF "SCEN_MAX" \in DOMAIN IOEnv THEN atoi(IOEnv.SCEN_MAX) ELSE 400
+MaxLevel == IF "SCEN_DEPTH" \in DOMAIN IOEnv THEN atoi(IOEnv.SCEN_DEPTH) ELSE 8
 
 ExportScen ==
   LET k == ScenKey IN
-  IF TLCGet(3) >= MaxFiles THEN FALSE          \* enough: prune the rest of the search
+  IF TLCGet(3) >= MaxFiles \/ TLCGet("level") > MaxLevel THEN FALSE   \* enough: prune the rest of the search
   ELSE IF k # <<"none">> /\ k \notin TLCGet(2)
   THEN /\ TLCSet(2, TLCGet(2) \cup {k})
        /\ TLCSet(3, TLCGet(3) + 1)
